@@ -84,7 +84,8 @@ Print Assumptions C12_fork_only_partial.
 (* KNOWN FINDING (C12/static/global-account-number-consumed-by-CALL-to-accountless-precompile): "no state change AT
    ALL" is false of the faithful model. A CALL (the opcode itself) to a precompile address without account makes the
    interpreter create one; evermint draws a global account number for it and only removes the account again at commit.
-   The counter in the auth store stays advanced, also under STATICCALL and also for read-only methods. What does hold
+   The counter in the auth store stays advanced (a number no account holds: [accnum_consumed]; numbers held by accounts
+   that a method which took effect created are part of [eff_of]), also under STATICCALL and also for read-only methods. What does hold
    is C12_tx_all_protected_no_effect above: nothing a precompile METHOD does takes effect. *)
 Definition C12_nothing_changes_under_static_full : Prop :=
   forall root, unprotected false root = [] -> eff_of (run_tx root) = [] /\ accnum_consumed root = false.
@@ -92,7 +93,7 @@ Theorem C12_nothing_changes_under_static_refuted : ~ C12_nothing_changes_under_s
 Proof. intros H. destruct (H accnum_tree) as [_ H2]; [reflexivity|]. vm_compute in H2. discriminate. Qed.
 Print Assumptions C12_nothing_changes_under_static_refuted.
 
-(* the counter can only move through a leaf reached by the CALL opcode itself *)
+(* a number can only be skipped through a leaf reached by the CALL opcode itself *)
 Theorem C12_accnum_only_by_call_opcode : forall root, call_leaves root = [] -> accnum_consumed root = false.
 Proof. intros root H. unfold accnum_consumed. now rewrite H. Qed.
 Print Assumptions C12_accnum_only_by_call_opcode.
